@@ -206,7 +206,26 @@ def check_case(case):
                     msg = "rebuilt tree differs from the walked tree at record %d: tree %s, stream %s" % (d[0], short(d[1], 120), short(d[2], 120))
             if msg is not None:
                 if void_children and active("C11-void-element-with-children"):
-                    return Verdict("known", finding="C11-void-element-with-children", nontrivial=True, classes=classes)
+                    # the recorded finding explains exactly this much: the children of the void-listed element are missing from the
+                    # stream and a 'SerializeError' token stands in their place.  With both taken out, everything else must still hold.
+                    pruned_want, skip = [], None
+                    for r in want:
+                        if skip is not None and r[0] > skip:
+                            continue
+                        skip = None
+                        pruned_want.append(r)
+                        if r[1] == "elem" and r[2] in (None, HTML_NS) and r[3] in _void():
+                            skip = r[0]
+                    pruned_toks = [t for t in toks if t["type"] != "SerializeError"]
+                    msg2 = validate(pruned_toks)
+                    if msg2 is None:
+                        got2 = rebuild(pruned_toks, want[0][1])
+                        if got2 != pruned_want:
+                            d2 = obs.first_diff(pruned_want, got2)
+                            msg2 = "(void-listed elements with children set aside) rebuilt tree differs from the walked tree at record %d: tree %s, stream %s" % (d2[0], short(d2[1], 120), short(d2[2], 120))
+                    if msg2 is None:
+                        return Verdict("known", finding="C11-void-element-with-children", nontrivial=True, classes=classes)
+                    msg = msg2
                 return Verdict("fail", "%s walker from %s: %s; input %s container=%r" % (builder, label, msg, short(text, 160), container),
                                "%s:%s" % (builder, msg.split(":")[0][:40] if msg.startswith("token") is False else msg.split(": ", 1)[1][:40]),
                                nontrivial=True, classes=classes)
